@@ -72,6 +72,7 @@ type Engine struct {
 	spawned              []*spawnRec
 	goQueue              bool
 	rangeNoDedupe        bool
+	rangeUTF8            bool // range over string decodes UTF-8 (symbolic offsets) instead of assuming ASCII
 	blocksRun            int
 	edges                int
 	calls                int
